@@ -536,6 +536,37 @@ pub fn instance_graph<'tcx>(cx: &mut Ctx<'tcx>) -> J {
             work.push_back((inst, did, 0));
         }
     }
+    // provided (defaulted) trait methods instantiated at every local impl that does not override them:
+    // they may never be called inside the crate, yet they are public API of the implementing type
+    for id in tcx.hir_free_items() {
+        let did = id.owner_id.def_id.to_def_id();
+        if let DefKind::Impl { of_trait: true } = tcx.def_kind(did) {
+            let tr = tcx.impl_trait_ref(did).instantiate_identity().skip_norm_wip();
+            if !tr.def_id.is_local() {
+                continue;
+            }
+            let overridden: Vec<DefId> = tcx
+                .associated_items(did)
+                .in_definition_order()
+                .filter_map(|it| it.trait_item_def_id())
+                .collect();
+            for m in tcx.provided_trait_methods(tr.def_id) {
+                if overridden.contains(&m.def_id) {
+                    continue;
+                }
+                if tcx.generics_of(m.def_id).own_params.len() != 0 {
+                    continue;
+                }
+                let env = TypingEnv::post_analysis(tcx, did);
+                if let Ok(Some(inst)) = Instance::try_resolve(tcx, env, m.def_id, tr.args) {
+                    let key = inst_key(tcx, inst);
+                    if seen.insert(key, ()).is_none() {
+                        work.push_back((inst, did, 0));
+                    }
+                }
+            }
+        }
+    }
     while let Some((inst, root, depth)) = work.pop_front() {
         let did = inst.def_id();
         if !did.is_local() || !tcx.is_mir_available(did) {
